@@ -252,7 +252,7 @@ Proof.
     + assert (Hlast : exists fl, In fl (f0 :: fr) /\ last (map size fr) (size f0) = size fl
                                  /\ shp rho fl = Some b).
       { exists (last fr f0). split; [apply last_In_cons|]. split; [apply last_map|].
-        rewrite last_cons_default in Hl. now rewrite last_map in Hl. }
+        cbn [map] in Hl. rewrite last_cons_default in Hl. now rewrite last_map in Hl. }
       destruct Hlast as (fl & Hin & E1 & E2). rewrite E1 in E.
       rewrite Forall_forall in H. destruct (H fl Hin b E2) as [_ B]. rewrite <- Hb. now apply B.
   - rewrite shp_MHad in Hs. apply shape_all_Forall in Hs. destruct Hs as [_ Hall].
